@@ -466,3 +466,120 @@ Proof.
       * exfalso. destruct H1 as [<-|[]]. destruct H2 as [<-|[]]. apply Hne. reflexivity.
       * cbn [length]. lia.
 Qed.
+
+Lemma spec_count g q : PSp.C02_spec g (PS.erase_hb (back_plan q)) ->
+  forall h, 1 <= hcount h q ->
+  hcount h q <= Nat.max 1 (length (PS.parents g (N.to_nat h))) /\
+  (2 <= hcount h q <-> PSp.merge_commit g (N.to_nat h)).
+Proof.
+  intros Sp h H1. rewrite hcount_analysed in *. rewrite <- PLP.analysed_erase_hb in *.
+  set (p := PS.erase_hb (back_plan q)) in *. set (n := N.to_nat h) in *.
+  assert (Hin : In n (PS.analysed p)) by (apply (count_occ_In Nat.eq_dec); lia).
+  destruct (PSp.c02_blocks g p Sp n Hin) as [p1 [bs [p2 [E [N1 [N2 [_ [L _]]]]]]]].
+  assert (Hc : count_occ Nat.eq_dec (PS.analysed p) n = length bs).
+  { rewrite E, !PEP.analysed_app, !count_occ_app, count_block.
+    apply (count_occ_not_In Nat.eq_dec) in N1. apply (count_occ_not_In Nat.eq_dec) in N2. lia. }
+  rewrite Hc. pose proof (lasts_count g n _ L) as HL. rewrite map_length in HL. exact HL.
+Qed.
+
+(* ------------------------------------------------------------------------------------------ *)
+(* 6. the validators imply the plan predicates of C14 *)
+
+Lemma c04_ok_parts g p : PL.c04_ok g p = true ->
+  PL.lifecycleb PE.init p = true /\ PC.plan_ok g (PS.erase_hb p) = true.
+Proof.
+  unfold PL.c04_ok. rewrite !andb_true_iff. tauto.
+Qed.
+
+Theorem validators_imply_predicates g q : PL.c04_ok g (back_plan q) = true ->
+  liveb q = true /\ contigb q = true /\ distinctb q = true /\
+  exists oc its r, q = AOther KEmerge oc its :: r.
+Proof.
+  intro V. destruct (c04_ok_parts _ _ V) as [L PO].
+  pose proof (PCS.checker_sound g _ PO) as Sp.
+  split; [apply lifecycle_liveb; apply PLP.lifecycleb_sound; exact L|].
+  rewrite <- back_nohb in Sp.
+  destruct (blocks_contig_distinct (nohb q) (spec_blocks_inv g _ Sp)) as [C D].
+  rewrite contigb_nohb in C. rewrite replays_nohb in D.
+  split; [exact C|]. split; [exact D|].
+  destruct (lifecycle_head q L) as [->|H]; [|exact H].
+  exfalso. exact (plan_ok_nonempty g _ PO eq_refl).
+Qed.
+
+Lemma head_firstb_emergeb q : head_firstb q = true -> head_emergeb q = true.
+Proof.
+  unfold head_firstb, head_emergeb. destruct q as [|a r]; [discriminate|].
+  destruct a as [c its|k oc its]; [discriminate|]. destruct k; try discriminate. destruct oc; [reflexivity|discriminate].
+Qed.
+
+Theorem head_emergeb_composed g q :
+  PL.c04_ok g (back_plan q) = true -> head_carriesb q = true -> head_emergeb q = true.
+Proof.
+  intros V H. destruct (validators_imply_predicates g q V) as [_ [_ [_ [oc [its [r ->]]]]]].
+  cbn in H. destruct oc; [reflexivity|discriminate].
+Qed.
+
+Theorem plan_okb_composed g q :
+  PL.c04_ok g (back_plan q) = true -> head_firstb q = true -> plan_okb q = true.
+Proof.
+  intros V H. destruct (validators_imply_predicates g q V) as [L [C [D _]]].
+  unfold plan_okb. rewrite (head_firstb_emergeb q H), H, C, D, L. reflexivity.
+Qed.
+
+(* ------------------------------------------------------------------------------------------ *)
+(* 7. the theorems of C14 with the plan predicates discharged by the validators *)
+
+Section RunComposed.
+  Variables St U : Type.
+  Variable sm : sem St U.
+  Variable items : list item.
+  Variable g : list (list nat).
+  Variable q : list action.
+  Variable nc : N.
+  Hypothesis V : PL.c04_ok g (back_plan q) = true.
+
+  Let out := run St U sm items q nc.
+
+  (* the calls of a step are the items of the resolved order, each once *)
+  Theorem run_order_composed : forall s : cstep U, In (RCommit s) (ro_recs out) ->
+    map (fun c => (k_item c, k_desc c)) (cs_calls s) =
+      firstn (length (cs_calls s)) (combine (seq 0 (length items)) items) /\
+    (forallb complete (cs_calls s) = true -> length (cs_calls s) = length items).
+  Proof.
+    apply run_order. exact (proj1 (validators_imply_predicates g q V)).
+  Qed.
+
+  (* the flag an item sees is true exactly for a commit with at least two non-redundant parents *)
+  Theorem run_is_merge_composed : head_carriesb q = true ->
+    forall (i : nat) (s : cstep U), nth_error (ro_recs out) i = Some (RCommit s) ->
+    (cs_merge s = true <-> 2 <= length (replay_branches q (c_id (cs_commit s)))) /\
+    (cs_merge s = true <-> PSp.merge_commit g (back_commit (cs_commit s))).
+  Proof.
+    intros Hc i s Hn.
+    destruct (validators_imply_predicates g q V) as [_ [C [D _]]].
+    pose proof (head_emergeb_composed g q V Hc) as He.
+    pose proof (run_is_merge St U sm items q nc He C D i s Hn) as M.
+    split; [exact M|]. rewrite M, (replay_branches_count q _ D).
+    destruct (run_steps St U sm items q nc i _ Hn) as [a [Ha [its [-> _]]]].
+    assert (H1 : 1 <= hcount (c_id (cs_commit s)) q).
+    { apply hcount_pos_iff. exists (ACommit (cs_commit s) its). split; [eapply nth_error_In; exact Ha|].
+      cbn. apply N.eqb_refl. }
+    destruct (c04_ok_parts _ _ V) as [_ PO].
+    exact (proj2 (spec_count g q (PCS.checker_sound g _ PO) _ H1)).
+  Qed.
+
+  Theorem run_log_ok_composed (ueqb : U -> U -> bool) : (forall u, ueqb u u = true) ->
+    head_carriesb q = true -> forall early : bool,
+    (early = true \/ match ro_out out with
+                     | Done _ _ => True
+                     | Failed (EConsume _ _) => True
+                     | Failed (EMissing _ _) => True
+                     | _ => False
+                     end) ->
+    log_ok U ueqb early q items q 0 (consume_log (ro_recs out)) = true.
+  Proof.
+    intros Hr Hc early He.
+    destruct (validators_imply_predicates g q V) as [L [C [D _]]].
+    exact (run_log_ok St U ueqb sm items q nc Hr (head_emergeb_composed g q V Hc) C D L early He).
+  Qed.
+End RunComposed.
